@@ -115,6 +115,13 @@ Choices ==
                    h \in ExistingIds({"leaf", "g"}) \cup {Sz + 2},
                    l \in {<<>>, <<<<"a", 2>>>>, <<<<"a", 3>>, <<"b", 1>>>>}}
          \cup {[Node(0, "var") EXCEPT !.asg = <<<<"a", Lit(0)>>>>]}
+    [] Family = "rng" ->
+         \* no references: every probe expression is evaluated exactly once per rendered element
+         {[Node(0, "leaf") EXCEPT !.rnd = r, !.rd = v] : r \in BOOLEAN, v \in {"-", "a"}}
+         \cup {[Node(0, "g") EXCEPT !.loc = <<<<"a", 1>>>>], Node(0, "cont")}
+         \cup {[Node(0, "loop") EXCEPT !.form = "count", !.cnt = 2, !.lv = "a"]}
+         \cup {[Node(0, "if") EXCEPT !.cond = Lit(1)]}
+         \cup {[Node(0, "var") EXCEPT !.asg = <<<<"a", Lit(2)>>>>]}
     [] Family = "var" ->
          {[Node(0, "var") EXCEPT !.asg = <<<<"a", e>>>>] : e \in {Lit(1), Lit(2), Lit(3), Dbl("a")}}
          \cup {[Node(0, "loop") EXCEPT !.form = "count", !.cnt = c] : c \in {2, 3}}
@@ -236,15 +243,15 @@ TagFail ==
            \* design: a failed attempt leaves no trace in the environment
            restored == IF Dev("LeakScopeOnError") \/ Dev("LateEnv") THEN scopes
                        ELSE IF f.pass = 1 THEN f.snap[pos] ELSE f.cur
-       IN IF inSpecs
-          THEN \* inside <specs> errors are ignored (and nothing is queued)
-               /\ stack' = SetTopFrame([f EXCEPT !.i = @ + 1])
-               /\ ret' = RetNone
-               /\ scopes' = restored
-          ELSE IF ret.kind \in LimitKinds /\ ~Dev("RetryLimitErrors")
-          THEN \* design: limit errors are fatal, never retried
+       IN IF ret.kind \in LimitKinds /\ ~Dev("RetryLimitErrors")
+          THEN \* design: limit errors are fatal, never retried - inside <specs> too
                /\ stack' = Below
                /\ ret' = ret
+               /\ scopes' = restored
+          ELSE IF inSpecs
+          THEN \* inside <specs> other errors are ignored (and nothing is queued)
+               /\ stack' = SetTopFrame([f EXCEPT !.i = @ + 1])
+               /\ ret' = RetNone
                /\ scopes' = restored
           ELSE /\ stack' = SetTopFrame([f EXCEPT !.rem = Append(@, pos), !.i = @ + 1])
                /\ ret' = RetNone
